@@ -1,4 +1,5 @@
 """C14 — run_timeout stops only in a sound, resumable state."""
+import os
 from . import core, eng, gen, engcheck
 
 THEOREMS = ["timeout_true_complete", "timeout_false_sound", "interrupted_between", "resume_complete", "lattice_timeout_sound", "lattice_resume_complete", "timeout_false_sound_agg", "timeout_false_sound_agg_from", "resume_complete_agg",
@@ -68,6 +69,21 @@ def build(rng, tier):
                 rt, rn = ("runtop", "runp") if j % 2 == 1 else ("runto", "run")
                 ops = [f"eng new {inst} {pid}"] + engcheck.load_ops(inst, inp) + [f"eng {rt} {inst} {k}", f"eng dump {inst}", f"eng {rn} {inst}", f"eng dump {inst}"]
                 cases.append(engcheck.Case(pid, inst, ops, {"inp": inp, "kind": "agg-single", "k": k}))
+    # ascent_par! with #![generate_run_timeout]: the same crash points in pools of 1..8 threads; the Lean side is the parallel physical-index model under a deadline
+    # (Model/EnginePhysParTimeout.lean, `eng runtopp <inst> <k> <threads>`, then `eng runpp`): concurrent indices, frozen / unfrozen protocol also on the early return
+    if os.path.exists(os.path.join(core.LEAN, "AscentVerif", "Model", "EnginePhysParTimeout.lean")):
+        for i, p in enumerate(plist[: 4 if tier == "quick" else 16]):
+            pid = f"tp{i}"
+            progs[pid] = p
+            mods.append((pid, eng.rs_module(pid, p, macro="ascent_par", attrs=("generate_run_timeout",))))
+            for j in range(2 if tier == "quick" else 6):
+                r2 = rng.fork(f"{pid}t{j}")
+                inp = gen.nodup_input(r2, p, max_rows=8)
+                t = r2.choice([1, 2, 3, 4, 8])
+                for k in range(MAXK if tier != "quick" else 8):
+                    inst = f"{pid}_{j}_{k}"
+                    ops = [f"eng new {inst} {pid} par {t}"] + engcheck.load_ops(inst, inp) + [f"eng runtopp {inst} {k} {t}", f"eng dump {inst}", f"eng runpp {inst} {t}", f"eng dump {inst}"]
+                    cases.append(engcheck.Case(pid, inst, ops, {"inp": inp, "kind": "par-single", "k": k, "threads": t}))
     # a BYODS relation (`#[ds(trrel)]`: its rows live in the index, the `rel` field is a FakeVec) fed by FACTS, read by a long recursive stratum and by a later one:
     # an interrupted call drops the indices the interrupted stratum took out of the struct - for a BYODS relation that is its content - and the resumed call must
     # re-evaluate the fact strata (the model side is the explicit-closure twin; the real side is judged by the oracle on the plain relations)
@@ -88,6 +104,10 @@ def build(rng, tier):
     return progs, mods, cases
 
 
+def is_run(o):
+    return any(o.startswith(f"eng {x} ") for x in ("run", "runp", "runpl", "runpp"))
+
+
 def tagged_module(pid, p, attrs):
     """the module of a program with a `ds`-tagged relation: the tagged relation cannot be loaded (its `rel` field is a FakeVec)"""
     import re
@@ -105,7 +125,7 @@ def oracle(c, p, out):
     inp_sets = {r: {eng.sx_tuple(t) for t in c.meta["inp"].get(r, [])} for r in range(len(p["rels"]))}
     prev_ret = None
     for o, l in zip(c.ops, out):
-        if o.startswith("eng runto") or (o.startswith("eng run ") or o.startswith("eng runp ") or o.startswith("eng runpl ")):
+        if o.startswith("eng runto") or is_run(o):
             if l.startswith("panic") or l in ("bad-op",): return f"`{o}` -> {l}"
             prev_ret = l
         elif o.startswith("eng dump"):
@@ -141,7 +161,7 @@ def canon(c, out):
         # after a first interruption the value left behind depends on which valid SCC order was followed, hence so does the number of clock
         # readings the NEXT call needs: only the first return value and the final completing call (return value and state) are compared with
         # the model; every call in between is judged by the oracle alone (false alarm of the thorough tier, see DESIGN.md section 14)
-        calls = [i for i, o in enumerate(c.ops) if o.startswith("eng runto") or (o.startswith("eng run ") or o.startswith("eng runp ") or o.startswith("eng runpl "))]
+        calls = [i for i, o in enumerate(c.ops) if o.startswith("eng runto") or is_run(o)]
         first, final = calls[0], calls[-1]
         res = []
         for i, (o, l) in enumerate(zip(c.ops, out)):
@@ -152,7 +172,7 @@ def canon(c, out):
         return res
     res, last = [], None
     for o, l in zip(c.ops, out):
-        if o.startswith("eng runto") or (o.startswith("eng run ") or o.startswith("eng runp ") or o.startswith("eng runpl ")): last = l
+        if o.startswith("eng runto") or is_run(o): last = l
         res.append("<state at interruption>" if o.startswith("eng dump") and last == "false" else l)
     return res
 
